@@ -19,17 +19,21 @@ import (
 	"bufio"
 	"context"
 	"encoding/json"
+	"errors"
 	"fmt"
 	"io"
 	"os"
+	"runtime"
 	"runtime/debug"
 	"strconv"
 	"strings"
 	"sync"
+	"sync/atomic"
 	"testing"
 	"time"
 
 	"go.temporal.io/server/api/adminservice/v1"
+	"google.golang.org/grpc"
 	"google.golang.org/grpc/metadata"
 	"google.golang.org/grpc/status"
 
@@ -278,6 +282,132 @@ func vsoProbe(c vsoCase, out *vsoOut, followBound time.Duration) error {
 	}
 	out.emit(fu)
 	return nil
+}
+
+// ---------------------------------------------------------------- one stream fails by a panic; several streams at once
+
+// an upstream client that panics: "handleStream panics" for whatever reason (StreamObs!Serve, ServeFails)
+type vsoPanicClient struct {
+	adminservice.AdminServiceClient
+}
+
+func (c *vsoPanicClient) StreamWorkflowReplicationMessages(context.Context, ...grpc.CallOption) (adminservice.AdminService_StreamWorkflowReplicationMessagesClient, error) {
+	panic("verif: upstream client panics")
+}
+
+// vsoCall runs the real stream handler of the real server object once (only the upstream client replaced): "served" (the
+// open reached the upstream), "rejected" (an error came back), "panic-escaped", "hang".
+func vsoCall(impl *adminServiceProxyServer, shard int, client adminservice.AdminServiceClient, bound time.Duration) string {
+	cp := *impl
+	cp.adminClient = client
+	ctx, cancel := context.WithCancel(metadata.NewIncomingContext(context.Background(),
+		vlStreamMD(strconv.Itoa(vlClientCluster), "1", strconv.Itoa(vlServerCluster), strconv.Itoa(shard), "x")))
+	defer cancel()
+	done := make(chan string, 1)
+	go func() {
+		res := "rejected"
+		defer func() {
+			if recover() != nil {
+				res = "panic-escaped"
+			}
+			done <- res
+		}()
+		err := cp.StreamWorkflowReplicationMessages(&vlSrvStream{ctx: ctx})
+		if errors.Is(err, errVlCaptured) {
+			res = "served"
+		}
+	}()
+	select {
+	case r := <-done:
+		return r
+	case <-time.After(bound):
+		return "hang"
+	}
+}
+
+// TestVerifStreamObsExtra: (1) ServePanic: a stream whose handler panics inside handleStream, then a well-formed stream on the
+// SAME shard, then the observer must show nothing active. (2) Concurrent: workers open and close small shard ids while other
+// streams force the counter slice to grow again and again (real parallelism; StreamObs's H handlers on one observer); at the
+// end the observer must show nothing active.
+func TestVerifStreamObsExtra(t *testing.T) {
+	outp := os.Getenv("VERIF_OUT")
+	if outp == "" {
+		t.Skip("VERIF_OUT not set")
+	}
+	rounds := 6
+	if v, _ := strconv.Atoi(os.Getenv("VERIF_ROUNDS")); v > 0 {
+		rounds = v
+	}
+	of, err := os.Create(outp)
+	if err != nil {
+		t.Fatal(err)
+	}
+	defer of.Close()
+	out := &vsoOut{f: of}
+	if runtime.GOMAXPROCS(0) < 4 {
+		runtime.GOMAXPROCS(4)
+	}
+	id := 0
+	for _, mode := range []string{"default", "lcm"} {
+		for _, srv := range []string{"inbound", "outbound"} {
+			rig, err := vlNewRig(vsoShardCfg(mode), 4, 6)
+			if err != nil {
+				t.Fatal(err)
+			}
+			impl, err := rig.adminImpl(srv)
+			if err != nil {
+				t.Fatal(err)
+			}
+			obs := rig.cc.inboundObserver
+			if srv == "outbound" {
+				obs = rig.cc.outboundObserver
+			}
+			id++
+			failing := vsoCall(impl, 2, &vsoPanicClient{}, 5*time.Second)
+			follow := vsoCall(impl, 2, &vlCapClient{}, 5*time.Second)
+			pr, after := vsoPrinter(obs, 3*time.Second)
+			out.emit(map[string]interface{}{"ev": "ServePanic", "id": id, "mode": mode, "srv": srv, "failing": failing, "follow": follow,
+				"printer": pr, "after": after})
+			for round := 0; round < rounds; round++ {
+				id++
+				var wg sync.WaitGroup
+				var bad atomic.Int32
+				start := make(chan struct{})
+				for w := 1; w <= 8; w++ {
+					wg.Add(1)
+					go func(w int) {
+						defer wg.Done()
+						<-start
+						for k := 0; k < 60; k++ {
+							if vsoCall(impl, w, &vlCapClient{}, 10*time.Second) != "served" {
+								bad.Add(1)
+							}
+						}
+					}(w)
+				}
+				grows := 0
+				wg.Add(1)
+				go func() {
+					defer wg.Done()
+					<-start
+					// every id is more than 9/8 of the size the previous one left behind: each forces a grow (allocate, copy, publish)
+					for g := 1100 * (round + 1); g < 6000000; g = g*2 + 77 {
+						if vsoCall(impl, g, &vlCapClient{}, 20*time.Second) != "served" {
+							bad.Add(1)
+						}
+						grows++
+					}
+				}()
+				close(start)
+				wg.Wait()
+				pr, after := vsoPrinter(obs, 10*time.Second)
+				out.emit(map[string]interface{}{"ev": "Concurrent", "id": id, "mode": mode, "srv": srv, "round": round, "workers": 8, "grows": grows,
+					"notserved": int(bad.Load()), "printer": pr, "after": after})
+			}
+			rig.close()
+			debug.FreeOSMemory()
+		}
+	}
 }
 
 // TestVerifStreamObs: VERIF_IN = NDJSON of vsoCase, VERIF_OUT = NDJSON events.
